@@ -1233,6 +1233,51 @@ func extractLocks(repo string, o *out) {
 		o.lines = append(o.lines, fmt.Sprintf("def rrCursorAddBits : Nat := %d", addBits))
 		o.lines = append(o.lines, fmt.Sprintf("def rrCursorModBits : Nat := %d", modBits))
 	}
+	// C06: enforceMinSize is `for len(gb.scRefs) < min { if !gb.addSubConn() { break } }`: one loop whose guard
+	// compares the pool size, whose body calls addSubConn exactly once, as the whole condition of an `if` that
+	// leaves the loop (break / return) - whatever the failure pattern of the connection factory, every
+	// iteration either adds a connection or is the last one (Proofs/Enforce.lean)
+	{
+		shape := false
+		af := parse(filepath.Join(repo, "grpcgcp", "gcp_balancer.go"))
+		for _, d := range af.Decls {
+			fd, isFn := d.(*ast.FuncDecl)
+			if !isFn || fd.Name.Name != "enforceMinSize" || fd.Body == nil {
+				continue
+			}
+			loops, calls, guarded := 0, 0, 0
+			guardOK := false
+			ast.Inspect(fd.Body, func(n ast.Node) bool {
+				switch x := n.(type) {
+				case *ast.ForStmt:
+					loops++
+					if be, ok := x.Cond.(*ast.BinaryExpr); ok && be.Op.String() == "<" && exprString(be.X) == "len(gb.scRefs)" {
+						guardOK = true
+					}
+				case *ast.RangeStmt:
+					loops++
+				case *ast.CallExpr:
+					if exprString(x.Fun) == "gb.addSubConn" {
+						calls++
+					}
+				case *ast.IfStmt:
+					if exprString(x.Cond) == "!gb.addSubConn()" && x.Init == nil && len(x.Body.List) > 0 {
+						switch last := x.Body.List[len(x.Body.List)-1].(type) {
+						case *ast.BranchStmt:
+							if last.Tok.String() == "break" && last.Label == nil {
+								guarded++
+							}
+						case *ast.ReturnStmt:
+							guarded++
+						}
+					}
+				}
+				return true
+			})
+			shape = loops == 1 && calls == 1 && guarded == 1 && guardOK
+		}
+		o.lines = append(o.lines, fmt.Sprintf("def enforceLoopStopsAtFailure : Bool := %v", shape))
+	}
 	o.extraFiles = map[string]string{"Accesses.lean": "/- GENERATED by tools/extract (locks.go) from /repo's working tree on every run. Do not edit. -/\nimport GcpVerif.Model.Sync\nnamespace GcpVerif.Generated\nopen GcpVerif.Sync\n\ndef accesses : List Access := [\n" +
 		strings.Join(uniq, ",\n") + "\n]\n\ndef acquisitions : List Acquisition := [\n" + strings.Join(acqLines, ",\n") + "\n]\n\nend GcpVerif.Generated\n"}
 }
